@@ -896,3 +896,324 @@ Theorem hubbard_atom_susc_of_hamiltonian :
     spine_susc_value Qcanon.Qc QcD parts (n1 _ QcD) (n0 _ QcD) = Qcanon.Q2Qc (QArith_base.Qmake 6%Z 17%positive).
 Proof. exact SpineSuscExamples.hub_susc_of_hamiltonian. Qed.
 Print Assumptions hubbard_atom_susc_of_hamiltonian.
+
+(** * Stage 5: the spine for the two-particle Green's function chi_{ijkl}(z1, z2; z3) (C02) -- ONE-BLOCK partition
+    (PV.SpineChi: model pipelines; PV.SpineChiPart: one part on dense data; PV.SpineChiTermLists: the term lists;
+    PV.SpineChiOneBlock / PV.SpineChiMain: the theorems; PV.SpineChiExamples).
+
+    FULL STATEMENT (not proved): for every classification S with [partition_ok] and [op_ok] for c_i, c_j, c^+_k, c^+_l, the value of
+    PV.SpineChi.spine_chi S ED beta i j k l (operators from Spine.op_compute, TwoParticleGF::prepare over CX4's bimap with the six
+    permutations, each selecting its own chain of four blocks L0 -> L1 -> L2 -> L3 -> L0) at a regular triple equals
+    EDSpec.chi of the assembled eigenvalues / weights and the four operators rotated by the assembled eigenvector matrix.
+    PROVED: the one-block partition (symmetries ignored), with NO hypothesis on the neighbouring layers and NO hypothesis on the
+    computed term lists ([spine_chi_one_block_partial] = the partial result; [spine_chi_dense_one_block] its dense form):
+      pipeline   = Thermal.dm_compute weights; rotated Jordan-Wigner matrices; their compressed row-/column-major views
+                   ([smat_rows]/[smat_cols] = what HPart.prune keeps, per outer index in increasing inner index);
+                   Chi.gf_prepare (computed: six parts, the permuted operators -- [chi_one_block_prepare]); Chi.part_compute (merge walks,
+                   addMultiterm, add_term = the retry loop of the source); Chi.gf_compute without table; Chi.gf_value on demand;
+      value      = EDSpec.chi beta tol E w C_i C_j CX_k CX_l z1 z2 z3,  tol = ReduceResonanceTolerance.
+    It closes the step named as missing in the header of PV.ChiLehmann ("term lists evaluate to the Lehmann 4-chain sum"):
+      [chi_dense_part_emitted]   sum over all visits of the terms handed to the term lists = sign * EDSpec.chi_ordering   (uses
+                                 ChiProofs.part_visits_spec and ChiLehmann.multiterm_emitted_value);
+      [chi_add_term_loop_value]  the retry loop adds the value of its term, for ANY comparator under abstract exactness hypotheses;
+      [chi_termlists_faithful]   hence the two term lists evaluate to the sum of the terms handed to them, when the comparators are exact
+                                 on the finite set of pole values ([cmp_exact]) and IsNegligible drops exact zeros only.
+    HYPOTHESES that remain (all on the input, none on another layer):
+      field with ofZ additive, non-zero on positive integers, ofZ 1 = 1, ofZ(-1) = -1;  exact value tests (prune / nz / coefficient
+      guards / negligibility drop exact zeros);  [cmp_exact] for both comparator tolerances on the level differences E_b - E_a
+      (boolean checker [cmp_exact_b]);  [chi_regular6]: in each of the six orderings no fermionic denominator vanishes, the code's
+      resonance test |y+y'-P-P'| < tol agrees with the specification's |y+y'| < tol && |E-E'| < tol and a non-resonant bosonic
+      denominator does not vanish, the weight guard passes (boolean checker [chi_regular6_b]).  RESONANT triples are included.
+    DONE towards the full statement:
+      (1) rectangular form of [chi_dense_part_emitted] for a chain of four blocks of sizes d0 x d1, d1 x d2, d2 x d3, d3 x d0 with four
+          eigenvalue / weight lists: [chi_chain_part_emitted] (with [chi_termlists_faithful], which is stated for any part, this is the
+          value of any part TwoParticleGF::prepare can create);
+      (4) on the one-block partition the general pipeline SpineChi.spine_chi (operators from Spine.op_compute = the models of
+          FieldOperator::prepare / FieldOperatorPart::compute) IS the one-block run: [chi_op_compute_one_block] (op_compute returns the
+          single part ((0,0), U^+ O U) as a list of rows), [spine_chi_one_block_op_compute_partial] -- for operators that do not vanish
+          identically ([first_tgt] <> None, decidable by evaluation).
+    MISSING for the full statement (precise list):
+      (2) [chain_ok], the analogue of [op_ok] for chains: for each permutation the parts Chi.gf_prepare creates on
+          SpineChi.spine_chi_world are exactly the chains (L0, L1, L2, L3) with (L0,L1), (L1,L2), (L2,L3) recorded for the permuted
+          operators and (L3,L0) for c^+_l, each once (Chi.prepare_one against SpinePartition.op_ok: getRightIndex / getLeftIndex on the
+          Z-valued copy of fo_bimap; retention test trivially true) -- the block-chain counterpart of GFFullProofs.gf_prepare_spec;
+      (3) the full-space 4-fold sum (EDSpec.chi_ordering on the assembled data) splits over block chains into the [chain_sum]s of (1), and
+          every chain not created contributes 0 (operators vanish outside their recorded pairs: SpinePartition.rot_term_zero) -- the
+          counterpart of GFFullProofs.gf_full_is_blocks / sum_over_pairs, four-fold;
+      (5) the Jordan-Wigner fact that c_i, c^+_i with i < M have an image on some basis state ([first_tgt] <> None), a hypothesis of (4). *)
+From PV Require Import Chi ChiProofs ChiLehmann SpineChi SpineChiPart SpineChiOneBlock SpineChiTermLists SpineChiMain SpineChiChain
+     SpineChiOpCompute SpineChiExamples SpineSuscConnected.
+From PVgen Require Import Gen_Multiterm.
+
+(** one part on dense data: the terms handed to the two term lists sum to sign * (Lehmann 4-chain sum of this ordering) *)
+Theorem chi_dense_part_emitted :
+  forall (K : Type) (NO : numops K),
+  field_theory (n0 K NO) (n1 K NO) (nadd K NO) (nmul K NO) (nsub K NO) (nopp K NO) (ndiv K NO) (ChiLehmann.kinv K NO) (@eq K) ->
+  forall keepf : K -> bool,
+  (forall x : K, keepf x = false -> x = n0 K NO) ->
+  forall tl : Chi.tols K,
+  (forall x : K, abs_gt K NO x (t_coeff K tl) = false -> x = n0 K NO) ->
+  (forall x : K, nre_ltb K NO (n0 K NO) (nabs K NO x) = false -> x = n0 K NO) ->
+  forall (n : nat) (E w : list K) (beta : K) (X1 X2 X3 X4 : mat K),
+  square K n X1 -> square K n X2 -> square K n X3 -> square K n X4 ->
+  forall (perm : nat * nat * nat) (sg : Z) (y1 y2 y3 : K),
+  chi_regular K NO tl n E w y1 y2 y3 ->
+  ChiLehmann.lsum K NO (spec_visits K (dense_part K NO keepf n E w beta X1 X2 X3 X4 perm sg))
+    (fun v => emitted_value K NO tl y1 y2 y3 (visit_emissions K NO tl (dense_part K NO keepf n E w beta X1 X2 X3 X4 perm sg) v)) =
+  nmul K NO (signK K NO sg) (chi_ordering K NO beta (t_reduce K tl) E w X1 X2 X3 X4 y1 y2 y3).
+Proof. exact SpineChiPart.dense_part_emitted. Qed.
+Print Assumptions chi_dense_part_emitted.
+
+(** TermList::add_term as it is in the source (retry loop): adds the value of its term, for any comparator, when a blocking term
+    is "the same" as the inserted one, operator+= is additive on such pairs and a negligible sum evaluates to 0 *)
+Theorem chi_add_term_loop_value :
+  forall (K : Type) (NO : numops K),
+  field_theory (n0 K NO) (n1 K NO) (nadd K NO) (nmul K NO) (nsub K NO) (nopp K NO) (ndiv K NO) (ChiLehmann.kinv K NO) (@eq K) ->
+  forall (T : Type) (comp : T -> T -> bool) (plus : T -> T -> T) (negl : T -> nat -> bool) (ev : T -> K)
+         (Good : T -> Prop) (same : T -> T -> Prop),
+  (forall e t : T, Good e -> Good t -> comp e t = false -> comp t e = false -> same e t) ->
+  (forall e t : T, Good e -> Good t -> same e t -> Good (plus e t)) ->
+  (forall e t : T, Good e -> Good t -> same e t -> ev (plus e t) = nadd K NO (ev e) (ev t)) ->
+  (forall (t : T) (d : nat), Good t -> negl t d = true -> ev t = n0 K NO) ->
+  forall (fuel : nat) (t : T) (l : list T),
+  Forall Good l -> Good t -> length l <= fuel ->
+  Forall Good (snd (add_term_loop T comp plus negl fuel t l)) /\
+  ChiLehmann.lsum K NO (snd (add_term_loop T comp plus negl fuel t l)) ev = nadd K NO (ChiLehmann.lsum K NO l ev) (ev t).
+Proof. exact SpineChiTermLists.add_term_loop_value. Qed.
+Print Assumptions chi_add_term_loop_value.
+
+(** the two term lists of a computed part evaluate to the sum of the terms handed to them (the step ChiLehmann names as missing) *)
+Theorem chi_termlists_faithful :
+  forall (K : Type) (NO : numops K),
+  field_theory (n0 K NO) (n1 K NO) (nadd K NO) (nmul K NO) (nsub K NO) (nopp K NO) (ndiv K NO) (ChiLehmann.kinv K NO) (@eq K) ->
+  (forall a b : Z, nofZ K NO (a + b)%Z = nadd K NO (nofZ K NO a) (nofZ K NO b)) ->
+  (forall z : Z, (0 < z)%Z -> nofZ K NO z <> n0 K NO) ->
+  forall (tl : Chi.tols K) (L : list K) (y1 y2 y3 : K),
+  cmp_exact K NO (t_cmp_nr K tl) L -> cmp_exact K NO (t_cmp_r K tl) L ->
+  (forall (x : K) (d : nat), abs_lt K NO x (ndiv K NO (t_neg_nr K tl) (nofZ K NO (Z.of_nat d))) = true -> x = n0 K NO) ->
+  (forall (x : K) (d : nat), abs_lt K NO x (ndiv K NO (t_neg_r K tl) (nofZ K NO (Z.of_nat d))) = true -> x = n0 K NO) ->
+  forall (g : nat) (p : part_in K), part_sorted K p ->
+  (forall v : visit K, In v (spec_visits K p) ->
+     In (nsub K NO (nth (v_i2 K v) (p_E2 K p) (n0 K NO)) (nth (v_i1 K v) (p_E1 K p) (n0 K NO))) L /\
+     In (nsub K NO (nth (v_i3 K v) (p_E3 K p) (n0 K NO)) (nth (v_i2 K v) (p_E2 K p) (n0 K NO))) L /\
+     In (nsub K NO (nth (v_i4 K v) (p_E4 K p) (n0 K NO)) (nth (v_i3 K v) (p_E3 K p) (n0 K NO))) L) ->
+  nadd K NO (list_eval K NO (fun t => nr_eval K NO t y1 y2 y3) (ps_nr K (computed_st K NO g tl p)))
+            (list_eval K NO (fun t => r_eval K NO (t_reduce K tl) t y1 y2 y3) (ps_r K (computed_st K NO g tl p))) =
+  ChiLehmann.lsum K NO (spec_visits K p) (fun v => emitted_value K NO tl y1 y2 y3 (visit_emissions K NO tl p v)).
+Proof. exact SpineChiTermLists.termlists_faithful_exact. Qed.
+Print Assumptions chi_termlists_faithful.
+
+(** TwoParticleGF::prepare on one block: six parts with the permuted operators (computed, not assumed) *)
+Theorem chi_one_block_prepare :
+  forall (K : Type) (NO : numops K) (keepf : K -> bool) (n : nat) (E w : list K) (beta : K) (D1 D2 D3 D4 : mat K),
+  Chi.gf_prepare K (world1 K NO keepf n beta E w D1 D2 D3 D4) =
+  Done (map (perm_part K NO keepf n E w beta D1 D2 D3 D4) permutations3).
+Proof. exact SpineChiOneBlock.one_block_prepare. Qed.
+Print Assumptions chi_one_block_prepare.
+
+(** the checkers of the two data hypotheses are sound *)
+Theorem chi_cmp_exact_checker :
+  forall (K : Type) (NO : numops K) (keq : K -> K -> bool), (forall p q : K, keq p q = true <-> p = q) ->
+  forall (tc : K) (L : list K), cmp_exact_b K NO keq tc L = true -> cmp_exact K NO tc L.
+Proof. exact SpineChiMain.cmp_exact_b_sound. Qed.
+Print Assumptions chi_cmp_exact_checker.
+
+Theorem chi_regular_checker :
+  forall (K : Type) (NO : numops K) (keq : K -> K -> bool), (forall p q : K, keq p q = true <-> p = q) ->
+  forall (tl : Chi.tols K) (n : nat) (E w : list K) (z1 z2 z3 : K),
+  chi_regular6_b K NO keq tl n E w z1 z2 z3 = true -> chi_regular6 K NO tl n E w z1 z2 z3.
+Proof. exact SpineChiMain.chi_regular6_b_sound. Qed.
+Print Assumptions chi_regular_checker.
+
+(** dense form: four square matrices in the eigenbasis *)
+Theorem spine_chi_dense_one_block :
+  forall (K : Type) (NO : numops K),
+  field_theory (n0 K NO) (n1 K NO) (nadd K NO) (nmul K NO) (nsub K NO) (nopp K NO) (ndiv K NO) (ChiLehmann.kinv K NO) (@eq K) ->
+  forall keepf : K -> bool,
+  (forall x : K, keepf x = false -> x = n0 K NO) ->
+  forall tl : Chi.tols K,
+  (forall x : K, abs_gt K NO x (t_coeff K tl) = false -> x = n0 K NO) ->
+  (forall x : K, nre_ltb K NO (n0 K NO) (nabs K NO x) = false -> x = n0 K NO) ->
+  (forall (x : K) (d : nat), abs_lt K NO x (ndiv K NO (t_neg_nr K tl) (nofZ K NO (Z.of_nat d))) = true -> x = n0 K NO) ->
+  (forall (x : K) (d : nat), abs_lt K NO x (ndiv K NO (t_neg_r K tl) (nofZ K NO (Z.of_nat d))) = true -> x = n0 K NO) ->
+  nofZ K NO 1%Z = n1 K NO -> nofZ K NO (-1)%Z = nopp K NO (n1 K NO) ->
+  (forall a b : Z, nofZ K NO (a + b)%Z = nadd K NO (nofZ K NO a) (nofZ K NO b)) ->
+  (forall z : Z, (0 < z)%Z -> nofZ K NO z <> n0 K NO) ->
+  forall (g n : nat) (E w : list K) (beta : K),
+  cmp_exact K NO (t_cmp_nr K tl) (pole_list K NO n E) -> cmp_exact K NO (t_cmp_r K tl) (pole_list K NO n E) ->
+  forall D1 D2 D3 D4 : mat K, square K n D1 -> square K n D2 -> square K n D3 -> square K n D4 ->
+  forall (z1 z2 z3 : K) (s : gf_st K),
+  chi_regular6 K NO tl n E w z1 z2 z3 ->
+  spine_chi_dense K NO keepf g tl n beta E w D1 D2 D3 D4 = Done s ->
+  Chi.gf_value K NO tl s z1 z2 z3 = Done (chi K NO beta (t_reduce K tl) E w D1 D2 D3 D4 z1 z2 z3).
+Proof. exact SpineChiMain.spine_chi_one_block. Qed.
+Print Assumptions spine_chi_dense_one_block.
+
+Theorem spine_chi_dense_one_block_total :
+  forall (K : Type) (NO : numops K) (keepf : K -> bool) (tl : Chi.tols K) (g n : nat) (E w : list K) (beta : K) (D1 D2 D3 D4 : mat K),
+  exists s : gf_st K, spine_chi_dense K NO keepf g tl n beta E w D1 D2 D3 D4 = Done s.
+Proof. exact SpineChiOneBlock.spine_chi_one_block_total. Qed.
+Print Assumptions spine_chi_dense_one_block_total.
+
+(** THE PARTIAL RESULT of the full statement: one block, inputs as the other layers produce them (weights from Thermal.dm_compute,
+    Jordan-Wigner matrices rotated by U) *)
+Theorem spine_chi_one_block_partial :
+  forall (K : Type) (NO : numops K),
+  field_theory (n0 K NO) (n1 K NO) (nadd K NO) (nmul K NO) (nsub K NO) (nopp K NO) (ndiv K NO) (ChiLehmann.kinv K NO) (@eq K) ->
+  forall keepf : K -> bool,
+  (forall x : K, keepf x = false -> x = n0 K NO) ->
+  forall tl : Chi.tols K,
+  (forall x : K, abs_gt K NO x (t_coeff K tl) = false -> x = n0 K NO) ->
+  (forall x : K, nre_ltb K NO (n0 K NO) (nabs K NO x) = false -> x = n0 K NO) ->
+  (forall (x : K) (d : nat), abs_lt K NO x (ndiv K NO (t_neg_nr K tl) (nofZ K NO (Z.of_nat d))) = true -> x = n0 K NO) ->
+  (forall (x : K) (d : nat), abs_lt K NO x (ndiv K NO (t_neg_r K tl) (nofZ K NO (Z.of_nat d))) = true -> x = n0 K NO) ->
+  nofZ K NO 1%Z = n1 K NO -> nofZ K NO (-1)%Z = nopp K NO (n1 K NO) ->
+  (forall a b : Z, nofZ K NO (a + b)%Z = nadd K NO (nofZ K NO a) (nofZ K NO b)) ->
+  (forall z : Z, (0 < z)%Z -> nofZ K NO z <> n0 K NO) ->
+  forall (g M : nat) (E : list K) (U : mat K) (beta : K) (i j k l : nat),
+  length E = Nat.pow 2 M ->
+  cmp_exact K NO (t_cmp_nr K tl) (pole_list K NO (Nat.pow 2 M) E) ->
+  cmp_exact K NO (t_cmp_r K tl) (pole_list K NO (Nat.pow 2 M) E) ->
+  forall (z1 z2 z3 : K) (s : gf_st K),
+  chi_regular6 K NO tl (Nat.pow 2 M) E (weights K NO beta E) z1 z2 z3 ->
+  spine_chi_one_block_run K NO keepf g tl M E U beta i j k l = Done s ->
+  Chi.gf_value K NO tl s z1 z2 z3 =
+  Done (chi K NO beta (t_reduce K tl) E (weights K NO beta E)
+          (rotate K NO (Nat.pow 2 M) U (op_matrix K NO M (cann i))) (rotate K NO (Nat.pow 2 M) U (op_matrix K NO M (cann j)))
+          (rotate K NO (Nat.pow 2 M) U (op_matrix K NO M (cdag k))) (rotate K NO (Nat.pow 2 M) U (op_matrix K NO M (cdag l)))
+          z1 z2 z3).
+Proof. exact SpineChiMain.spine_chi_one_block_rotated. Qed.
+Print Assumptions spine_chi_one_block_partial.
+
+(** * Non-vacuity: chi_{0110} of the Hubbard atom at the RESONANT triple (z1, z2, z3) = (1/2, 7/2, 1/2) (z1 = z3), rationals with the
+    discrete absolute value: every hypothesis of [spine_chi_one_block_partial] discharged (the data hypotheses by their checkers) *)
+Theorem hubbard_atom_chi_spine :
+  exists s, hub_chi_run = Done s /\
+    Chi.gf_value Qcanon.Qc QcD TLD s chi_z1 chi_z2 chi_z3 =
+    Done (chi Qcanon.Qc QcD (n1 _ QcD) eps_half hub_E (weights Qcanon.Qc QcD (n1 _ QcD) hub_E)
+            (rotate Qcanon.Qc QcD 4 hub_U (op_matrix Qcanon.Qc QcD 2 (cann 0))) (rotate Qcanon.Qc QcD 4 hub_U (op_matrix Qcanon.Qc QcD 2 (cann 1)))
+            (rotate Qcanon.Qc QcD 4 hub_U (op_matrix Qcanon.Qc QcD 2 (cdag 1))) (rotate Qcanon.Qc QcD 4 hub_U (op_matrix Qcanon.Qc QcD 2 (cdag 0)))
+            chi_z1 chi_z2 chi_z3).
+Proof. exact SpineChiExamples.hub_chi_spine. Qed.
+Print Assumptions hubbard_atom_chi_spine.
+
+(** value 64/459; six parts; a stored ResonantTerm with non-zero resonant coefficient whose Kronecker test fires at this triple *)
+Theorem hubbard_atom_chi_resonant_value :
+  hub_chi_value = Qcanon.Q2Qc (QArith_base.Qmake 64%Z 459%positive) /\ hub_chi_value <> n0 _ QcD /\
+  nsub _ QcD chi_z1 chi_z3 = n0 _ QcD /\
+  match hub_chi_run with
+  | Done s => length (g_parts Qcanon.Qc s) = 6 /\ existsb resonant_term_fires (g_parts Qcanon.Qc s) = true
+  | _ => False
+  end.
+Proof. exact SpineChiExamples.hub_chi_value_resonant. Qed.
+Print Assumptions hubbard_atom_chi_resonant_value.
+
+(** * Stage 5, continued: items (1) and (4) of the list *)
+(** (1) a part on a chain of four blocks *)
+Theorem chi_chain_part_emitted :
+  forall (K : Type) (NO : numops K),
+  field_theory (n0 K NO) (n1 K NO) (nadd K NO) (nmul K NO) (nsub K NO) (nopp K NO) (ndiv K NO) (ChiLehmann.kinv K NO) (@eq K) ->
+  forall keepf : K -> bool,
+  (forall x : K, keepf x = false -> x = n0 K NO) ->
+  forall tl : Chi.tols K,
+  (forall x : K, abs_gt K NO x (t_coeff K tl) = false -> x = n0 K NO) ->
+  forall (d0 d1 d2 d3 : nat) (E0 E1 E2 E3 w0 w1 w2 w3 : list K) (beta : K) (X1 X2 X3 X4 : mat K),
+  shape K d0 d1 X1 -> shape K d1 d2 X2 -> shape K d2 d3 X3 -> shape K d3 d0 X4 ->
+  forall (perm : nat * nat * nat) (sg : Z) (blocks : Z * Z * Z * Z) (y1 y2 y3 : K),
+  chain_regular K NO tl d0 d1 d2 d3 E0 E1 E2 E3 w0 w1 w2 w3 y1 y2 y3 ->
+  ChiLehmann.lsum K NO (spec_visits K (chain_part K NO keepf d0 d2 E0 E1 E2 E3 w0 w1 w2 w3 beta X1 X2 X3 X4 perm sg blocks))
+    (fun v => emitted_value K NO tl y1 y2 y3
+                (visit_emissions K NO tl (chain_part K NO keepf d0 d2 E0 E1 E2 E3 w0 w1 w2 w3 beta X1 X2 X3 X4 perm sg blocks) v)) =
+  nmul K NO (signK K NO sg) (chain_sum K NO tl d0 d1 d2 d3 E0 E1 E2 E3 w0 w1 w2 w3 beta X1 X2 X3 X4 y1 y2 y3).
+Proof. exact SpineChiChain.chain_part_emitted. Qed.
+Print Assumptions chi_chain_part_emitted.
+
+(** (4) Spine.op_compute on the one-block partition returns the rotated Jordan-Wigner matrix (C10's model against EDSpec.rotate) *)
+Theorem chi_op_compute_one_block :
+  forall (K : Type) (NO : numops K),
+  ring_theory (n0 K NO) (n1 K NO) (nadd K NO) (nmul K NO) (nsub K NO) (nopp K NO) (@eq K) ->
+  nconj K NO (n0 K NO) = n0 K NO ->
+  forall (fb : bool) (eps : K),
+  nre_ltb K NO (nabs K NO (n1 K NO)) eps = false -> nre_ltb K NO (nabs K NO (nopp K NO (n1 K NO))) eps = false ->
+  nre_ltb K NO eps (nabs K NO (n1 K NO)) = true -> nre_ltb K NO eps (nabs K NO (nopp K NO (n1 K NO))) = true ->
+  forall (M : nat) (E : list K) (U : mat K), length E = Nat.pow 2 M -> square K (Nat.pow 2 M) U ->
+  forall o : fop, mono_in_range M (fop_mono o) -> first_tgt K NO M o (seq 0 (Nat.pow 2 M)) <> None ->
+  op_compute K NO fb eps (one_block M) [(E, U)] o = Done [((0, 0), rotate K NO (Nat.pow 2 M) U (poly_matrix K NO M (fop_poly K NO o)))].
+Proof. exact SpineChiOpCompute.op_compute_one_block. Qed.
+Print Assumptions chi_op_compute_one_block.
+
+(** the one-block theorem for the GENERAL pipeline SpineChi.spine_chi (the partial result of the full statement in its own words) *)
+Theorem spine_chi_one_block_op_compute_partial :
+  forall (K : Type) (NO : numops K),
+  field_theory (n0 K NO) (n1 K NO) (nadd K NO) (nmul K NO) (nsub K NO) (nopp K NO) (ndiv K NO) (ChiLehmann.kinv K NO) (@eq K) ->
+  nconj K NO (n0 K NO) = n0 K NO ->
+  forall (fb : bool) (eps : K),
+  nre_ltb K NO (nabs K NO (n1 K NO)) eps = false -> nre_ltb K NO (nabs K NO (nopp K NO (n1 K NO))) eps = false ->
+  nre_ltb K NO eps (nabs K NO (n1 K NO)) = true -> nre_ltb K NO eps (nabs K NO (nopp K NO (n1 K NO))) = true ->
+  forall keepf : K -> bool,
+  (forall x : K, keepf x = false -> x = n0 K NO) ->
+  forall tl : Chi.tols K,
+  (forall x : K, abs_gt K NO x (t_coeff K tl) = false -> x = n0 K NO) ->
+  (forall x : K, nre_ltb K NO (n0 K NO) (nabs K NO x) = false -> x = n0 K NO) ->
+  (forall (x : K) (d : nat), abs_lt K NO x (ndiv K NO (t_neg_nr K tl) (nofZ K NO (Z.of_nat d))) = true -> x = n0 K NO) ->
+  (forall (x : K) (d : nat), abs_lt K NO x (ndiv K NO (t_neg_r K tl) (nofZ K NO (Z.of_nat d))) = true -> x = n0 K NO) ->
+  nofZ K NO 1%Z = n1 K NO -> nofZ K NO (-1)%Z = nopp K NO (n1 K NO) ->
+  (forall a b : Z, nofZ K NO (a + b)%Z = nadd K NO (nofZ K NO a) (nofZ K NO b)) ->
+  (forall z : Z, (0 < z)%Z -> nofZ K NO z <> n0 K NO) ->
+  forall (g M : nat) (E : list K) (U : mat K) (beta : K) (i j k l : nat),
+  length E = Nat.pow 2 M -> square K (Nat.pow 2 M) U ->
+  i < M -> j < M -> k < M -> l < M ->
+  first_tgt K NO M (FC i) (seq 0 (Nat.pow 2 M)) <> None -> first_tgt K NO M (FC j) (seq 0 (Nat.pow 2 M)) <> None ->
+  first_tgt K NO M (FCdag k) (seq 0 (Nat.pow 2 M)) <> None -> first_tgt K NO M (FCdag l) (seq 0 (Nat.pow 2 M)) <> None ->
+  cmp_exact K NO (t_cmp_nr K tl) (pole_list K NO (Nat.pow 2 M) E) ->
+  cmp_exact K NO (t_cmp_r K tl) (pole_list K NO (Nat.pow 2 M) E) ->
+  forall (z1 z2 z3 : K) (s : gf_st K),
+  chi_regular6 K NO tl (Nat.pow 2 M) E (weights K NO beta E) z1 z2 z3 ->
+  spine_chi K NO keepf fb eps g tl (one_block M) [(E, U)] beta i j k l = Done s ->
+  Chi.gf_value K NO tl s z1 z2 z3 =
+  Done (chi K NO beta (t_reduce K tl) E (weights K NO beta E)
+          (rotate K NO (Nat.pow 2 M) U (op_matrix K NO M (cann i))) (rotate K NO (Nat.pow 2 M) U (op_matrix K NO M (cann j)))
+          (rotate K NO (Nat.pow 2 M) U (op_matrix K NO M (cdag k))) (rotate K NO (Nat.pow 2 M) U (op_matrix K NO M (cdag l)))
+          z1 z2 z3).
+Proof. exact SpineChiOpCompute.spine_chi_one_block_op_compute. Qed.
+Print Assumptions spine_chi_one_block_op_compute_partial.
+
+(** the Hubbard atom through the general pipeline: the same run *)
+Theorem hubbard_atom_chi_general_pipeline : hub_chi_run_general = hub_chi_run.
+Proof. exact SpineChiExamples.hub_chi_general_is_run. Qed.
+Print Assumptions hubbard_atom_chi_general_pipeline.
+
+(** * Stage 4, continued: the CONNECTED susceptibility (Susceptibility::subtractDisconnected) = the susceptibility spine composed with
+    the ensemble-average spine of Stage 3: EDSpec.susc - beta <A><B> where the zero test fires, EDSpec.susc elsewhere *)
+Theorem spine_susc_connected_partition :
+  forall (K : Type) (NO : numops K) (kinv : K -> K),
+  field_theory (n0 K NO) (n1 K NO) (nadd K NO) (nmul K NO) (nsub K NO) (nopp K NO) (ndiv K NO) kinv (@eq K) ->
+  nconj K NO (n0 K NO) = n0 K NO ->
+  forall (fb : bool) (eps : K),
+  nre_ltb K NO (nabs K NO (n1 K NO)) eps = false -> nre_ltb K NO (nabs K NO (nopp K NO (n1 K NO))) eps = false ->
+  nre_ltb K NO eps (nabs K NO (n1 K NO)) = true -> nre_ltb K NO eps (nabs K NO (nopp K NO (n1 K NO))) = true ->
+  forall reference prec : K,
+  (forall x, keep_entry K NO reference prec x = false -> x = n0 K NO) ->
+  forall T : GFPart.tols K,
+  (forall R, susc_relevant K NO (GFPart.t_matrix_element K T) R = false -> R = n0 K NO) ->
+  (forall a b, susc_compare K NO (GFPart.t_compare K T) a b = false -> susc_compare K NO (GFPart.t_compare K T) b a = true) ->
+  forall (S : classification) (ED : eigdata K) (a b c d : nat) (pairsA pairsB : list (nat * nat)),
+  partition_ok S -> eig_ok K S ED ->
+  op_ok K NO fb eps S (FQuad a b) pairsA -> op_ok K NO fb eps S (FQuad c d) pairsB ->
+  forall (fixed lenient : bool) (beta z : K) (parts : list ((nat * nat) * spart_out K)),
+  spine_susc K NO fb eps reference prec T fixed lenient S ED beta a b c d = Done (WDone parts) ->
+  exists D,
+    spine_dm K NO beta S ED = Done D /\
+    let Am := rotate K NO (state_size S) (assembled_U K NO S ED) (poly_matrix K NO (sc_M S) (p_n_offdiag K (n1 K NO) a b)) in
+    let Bm := rotate K NO (state_size S) (assembled_U K NO S ED) (poly_matrix K NO (sc_M S) (p_n_offdiag K (n1 K NO) c d)) in
+    let aveA := trace_rho K NO (assembled_w K D) Am in
+    let aveB := trace_rho K NO (assembled_w K D) Bm in
+    let full := susc K NO beta (GFPart.t_resonance K T) (assembled_E K ED) (assembled_w K D) Am Bm z (z_is_zero K NO z) in
+    spine_ea K NO fb eps reference prec S ED beta a b = Done aveA /\
+    spine_ea K NO fb eps reference prec S ED beta c d = Done aveB /\
+    susc_value K NO parts (Some (aveA, aveB)) beta z =
+    if z_is_zero K NO z then nsub K NO full (nmul K NO (nmul K NO aveA aveB) beta) else full.
+Proof.
+  exact (fun K NO kinv Kf => SpineSuscConnected.spine_susc_connected_partition K NO kinv (F_R Kf) (Fdiv_def Kf)).
+Qed.
+Print Assumptions spine_susc_connected_partition.
